@@ -345,16 +345,23 @@ fn exec_inner(st: &mut St, cmd: &str) -> String {
             let tasks: usize = toks[2].parse().unwrap();
             let seed: u64 = toks[3].parse().unwrap();
             let (tx, rx) = std::sync::mpsc::channel();
+            // the event log of threads.rs (lock acquisitions / releases, calls, installs) is replayed
+            // through the transition system of Model/Pool.lean by the driver
+            qvnt::verif::pool::start();
             std::thread::spawn(move || {
                 let r = crate::conc::run(&mode, tasks, seed);
                 let _ = tx.send(r);
             });
             match rx.recv_timeout(std::time::Duration::from_secs(30)) {
-                Ok(r) => r,
+                Ok(r) => {
+                    let log = qvnt::verif::pool::take();
+                    format!("{r} log {}", log.join(" "))
+                }
                 Err(_) => {
                     // the worker threads are stuck; nothing more can be executed in this process
                     ABORT.store(true, std::sync::atomic::Ordering::SeqCst);
-                    "deadlock".to_string()
+                    let log = qvnt::verif::pool::take();
+                    format!("deadlock log {}", log.join(" "))
                 }
             }
         }
